@@ -161,3 +161,43 @@ Definition nested_ok (pfnames : list str) (lib : list tpl) (name : str) (args : 
   match classify_pf pfnames (canon_pf pfnames name) with PfNone => true | _ => false end &&
   forallb (nested_arg_ok pfnames lib name) args &&
   match find_tpl lib name with Some t => flat_body (t_body t) | None => true end.
+
+(** Calls inside a template body (C04: "body encode -> substitute -> recursive expand with a new parent frame").  The
+    body is text, parameter references, and calls to other templates with plain names and plain arguments.  After the
+    parameters have been substituted, every such call is replaced by its result; one trailing line break of each of its
+    arguments is dropped first (the known finding c04:trailing-newline-dropped). *)
+Fixpoint body_subst (ht : argmap) (e : enc) : enc :=
+  match e with
+  | [] => []
+  | A (k :: more) :: r =>
+    (match am_get ht (param_key k) with
+     | Some v => drop_last_nl v
+     | None => match more with
+               | d :: _ => d
+               | [] => unexpanded_arg [chars (show_key (param_key k))]
+               end
+     end) ++ body_subst ht r
+  | T args :: r => T (map drop_last_nl args) :: body_subst ht r
+  | i :: r => i :: body_subst ht r
+  end.
+Fixpoint body_calls_ok (pfnames : list str) (lib : list tpl) (outer : str) (e : enc) : bool :=
+  match e with
+  | [] => true
+  | Ch _ :: r => body_calls_ok pfnames lib outer r
+  | A [k] :: r => plain k && body_calls_ok pfnames lib outer r
+  | A [k; d] :: r => plain k && plain d && body_calls_ok pfnames lib outer r
+  | T (n :: args) :: r =>
+      plain n && forallb plain args && flat_ok pfnames lib (codes n) (map drop_last_nl args) &&
+      negb (str_eqb (codes n) outer) && body_calls_ok pfnames lib outer r
+  | _ => false
+  end.
+Definition body_calls_result (lib : list tpl) (name : str) (args : list enc) : enc :=
+  match find_tpl lib name with
+  | None => chars (missing_tpl name)
+  | Some t => add_newline (page_result lib (body_subst (bind_args args 1 []) (t_body t)))
+  end.
+Definition body_calls_call_ok (pfnames : list str) (lib : list tpl) (name : str) (args : list enc) : bool :=
+  str_eqb (codes (strip_i (chars name))) name && negb (existsb (N.eqb 58) name) &&
+  match classify_pf pfnames (canon_pf pfnames name) with PfNone => true | _ => false end &&
+  forallb plain args &&
+  match find_tpl lib name with Some t => body_calls_ok pfnames lib name (t_body t) | None => true end.
